@@ -108,7 +108,7 @@ fn mutate(u: &mut Unstructured, s: &str) -> arbitrary::Result<String> {
         0 if !cs.is_empty() => {
             cs.remove(pos);
         }
-        1 => cs.insert(pos, *u.choose(INS)?),
+        1 => cs.insert(pos, if u.ratio(1, 10)? { crate::props::c11::random_non_ascii(u)? } else { *u.choose(INS)? }),
         2 if !cs.is_empty() => cs[pos] = *u.choose(INS)?,
         3 if !cs.is_empty() => {
             // duplicate a separator or any char
